@@ -923,6 +923,7 @@ func (c *FnCtx) loopHead(fr *Frame, li *loopInfo, st *State) {
 			g := c.evalBool(env, as.E)
 			o := c.obligation(st, "assert", fmt.Sprintf("loop%d.entry.%s", li.ordinal, clauseName(as, k)), g, li.header.Instrs[0].Pos())
 			o.Desc = "holds when the loop is entered: " + as.Text
+			c.assume(st, g) // assert-then-assume: later assertions and the loop may build on it (a failure is reported above)
 		}
 	}
 	// 1. invariants hold on entry
@@ -1001,19 +1002,7 @@ func (c *FnCtx) loopHead(fr *Frame, li *loopInfo, st *State) {
 			if !calledInLoop[name] {
 				continue
 			}
-			rs := c.trackResT[name]
-			if rs == nil {
-				continue
-			}
-			var nv Val
-			if rs.Len() == 1 {
-				nv = c.fresh("loopcall$"+name, rs.At(0).Type(), st)
-			} else {
-				for k := 0; k < rs.Len(); k++ {
-					nv.Tuple = append(nv.Tuple, c.fresh("loopcall$"+name, rs.At(k).Type(), st))
-				}
-			}
-			c.lastCall[name] = nv
+			delete(c.lastCall, name) // the value facts of the pre-loop call no longer describe the latest call
 		}
 	}
 	for _, k := range li.frameComps {
@@ -1115,7 +1104,7 @@ func (c *FnCtx) havocSet(st *State, m *modSet, why string) {
 				continue
 			}
 			if strings.HasPrefix(k, "ghost$lock") || strings.HasPrefix(k, "ghost$cb") || k == "ghost$cancelled" ||
-				strings.HasPrefix(k, "ghost$calls$") || strings.HasPrefix(k, "ghost$arg$") || strings.HasPrefix(k, "ghost$argelem$") || strings.HasPrefix(k, "ghost$calllock$") || strings.HasPrefix(k, "ghost$callgen$") {
+				strings.HasPrefix(k, "ghost$calls$") || strings.HasPrefix(k, "ghost$arg$") || strings.HasPrefix(k, "ghost$argelem$") || strings.HasPrefix(k, "ghost$res$") || strings.HasPrefix(k, "ghost$calllock$") || strings.HasPrefix(k, "ghost$callgen$") {
 				// bookkeeping of the verified goroutine itself (locks it holds, its callback log): code we cannot see
 				// does not lock/unlock on our behalf (assumed); callbacks update the log through their own hooks
 				if !m.comps[k] {
@@ -1357,15 +1346,7 @@ func (c *FnCtx) callMods(fr *Frame, call *ssa.CallCommon, m *modSet, depth int) 
 	}
 	if callee != nil {
 		if c.isTracked(callee) {
-			m.comps["ghost$calls$"+callee.Name()] = true
-			m.comps["ghost$calllock$"+callee.Name()] = true
-			m.comps["ghost$callgen$"+callee.Name()] = true
-			for k := range call.Args {
-				m.comps[fmt.Sprintf("ghost$arg$%s$%d", callee.Name(), k)] = true
-				for i := 0; i < 4; i++ {
-					m.comps[fmt.Sprintf("ghost$argelem$%s$%d$%d", callee.Name(), k, i)] = true
-				}
-			}
+			c.trackedGhostMods(callee.Name(), len(call.Args), m)
 		}
 		c.funcMods(callee, m, depth)
 		return
@@ -1375,6 +1356,9 @@ func (c *FnCtx) callMods(fr *Frame, call *ssa.CallCommon, m *modSet, depth int) 
 		return
 	}
 	if call.IsInvoke() {
+		if c.isTrackedName(call.Method.Name()) {
+			c.trackedGhostMods(call.Method.Name(), len(call.Args)+1, m)
+		}
 		if mm := c.eng.invokeMods(c, call); mm != nil {
 			m.union(mm)
 			return
@@ -1398,6 +1382,56 @@ func (c *FnCtx) callMods(fr *Frame, call *ssa.CallCommon, m *modSet, depth int) 
 		return
 	}
 	m.all = true
+}
+
+// trackedGhostMods: the call-log components a call of the tracked callee writes.
+func (c *FnCtx) trackedGhostMods(name string, nargs int, m *modSet) {
+	m.comps["ghost$calls$"+name] = true
+	m.comps["ghost$calllock$"+name] = true
+	m.comps["ghost$callgen$"+name] = true
+	for k := 0; k < nargs; k++ {
+		m.comps[fmt.Sprintf("ghost$arg$%s$%d", name, k)] = true
+		for i := 0; i < 4; i++ {
+			m.comps[fmt.Sprintf("ghost$argelem$%s$%d$%d", name, k, i)] = true
+		}
+	}
+	for k := 0; k < 4; k++ {
+		m.comps[fmt.Sprintf("ghost$res$%s$%d", name, k)] = true
+	}
+}
+
+func (c *FnCtx) isTrackedName(name string) bool {
+	if c.spec == nil {
+		return false
+	}
+	for _, t := range c.spec.Track {
+		if t == name {
+			return true
+		}
+	}
+	return false
+}
+
+// recordResult: the results of the latest call of a tracked callee, kept as call-log components (so that they merge at
+// joins, are forgotten at the head of a loop that makes such calls, and are what a contracted callee's postconditions
+// about ITS tracked calls speak about at the call site).
+func (c *FnCtx) recordResult(st *State, name string, r *Val) {
+	if r == nil {
+		return
+	}
+	vs := r.Tuple
+	if len(vs) == 0 {
+		vs = []Val{*r}
+	}
+	for k, v := range vs {
+		if v.E == "" || v.T == nil {
+			continue
+		}
+		comp := fmt.Sprintf("ghost$res$%s$%d", name, k)
+		c.comp(comp, c.ty.SortOf(v.T), v.T)
+		c.trackArgT[comp] = v.T
+		st.heap[comp] = v.E
+	}
 }
 
 func (c *FnCtx) isTracked(fn *ssa.Function) bool {
@@ -1527,7 +1561,7 @@ func (c *FnCtx) funcMods(fn *ssa.Function, m *modSet, depth int) {
 			}
 			for k := range body.comps {
 				// bookkeeping only: the abstract message contents (ghost$msg) are program state and stay under `modifies`
-				if strings.HasPrefix(k, "ghost$cb") || strings.HasPrefix(k, "ghost$chan") || strings.HasPrefix(k, "ghost$calls$") || strings.HasPrefix(k, "ghost$arg$") || k == "ghost$lockgen" || k == "ghost$cancelled" {
+				if strings.HasPrefix(k, "ghost$cb") || strings.HasPrefix(k, "ghost$chan") || strings.HasPrefix(k, "ghost$calls$") || strings.HasPrefix(k, "ghost$arg$") || strings.HasPrefix(k, "ghost$res$") || k == "ghost$lockgen" || k == "ghost$cancelled" {
 					mm.comps[k] = true
 				}
 			}
